@@ -176,19 +176,11 @@ def judge : Judge := liftJudge fun input obs => do
       | .ok (.arr a) => a.toList.map (fun l => match l.getArr? with
           | .ok x => x.toList.filterMap (fun j => j.getStr?.toOption) | .error _ => [])
       | _ => []
-    let selOK (ls : List (List Server)) : Bool :=
-      (List.range obsSel.length).all fun i =>
-        let cur := ls.getD i []
-        let shown := cur.map showSrv
-        (obsSel.getD i []).all fun e => if cur.isEmpty then e == "<nil>" else shown.contains e
+    let selOK (ls : List (List Server)) : Bool := EgVerif.LoadBalance.selOK showSrv ls obsSel
     let wSelOK (ls : List (List Server)) : Bool :=
-      lb.policy != .weightedRandom ||
-      (List.range obsSel.length).all fun i =>
-        let cur := ls.getD i []
-        !(cur.any (fun s => decide (s.weight > 0))) ||
-          (obsSel.getD i []).all fun e => (cur.filter (fun s => decide (s.weight > 0))).any (fun s => showSrv s == e)
-    let histLists : List (List Server) :=
-      (List.range (gens.length + 1)).map (fun i => afterReports sps (gens.take i))
+      EgVerif.LoadBalance.wSelOK showSrv (lb.policy == .weightedRandom) ls obsSel
+    -- `histLists = specLists = modelLists` for every report history: `swap_spec_lists_are_model_lists`
+    let histLists : List (List Server) := EgVerif.LoadBalance.histLists sps gens
     let selModel := selOK histLists && wSelOK histLists && (obsSel.isEmpty || obsSel.length == gens.length + 1)
     let selSpec := selOK specLists && wSelOK specLists
     let weightOnly := (List.range (gens.length - 1)).any fun i =>
